@@ -177,7 +177,8 @@ class Harness(object):
     def at(self, cmd, params, streaming=False):
         self._sync_globals()
         self.comm.sent = []
-        self.comm.streaming = streaming
+        self.comm.streaming = streaming is True
+        self.comm.paused = streaming == "paused"
         rv = self.plugin.handleAtCommandQueuing(self.comm, "queuing", cmd, params, tags=set())
         return rv, list(self.comm.sent)
 
